@@ -87,6 +87,9 @@ MUTANTS = [
     ("catch-restore-registers-gone", "C04", "R-CATCH-RESTORE", "execute_instructions", "crates/runtime/src/vm.rs",
      "                        self.registers\n                            .resize(self.min_frame_registers, KValue::Null);\n\n                        self.set_register(catch_point.error_register, catch_value);",
      "                        self.set_register(catch_point.error_register, catch_value);"),
+    ("cursor-size-hint-unchecked", "C13", "R-CURSOR", "Split", "crates/runtime/src/core_lib/string/iterators.rs",
+     "impl Iterator for Split {\n    type Item = Output;\n",
+     "impl Split {\n    #[allow(dead_code)]\n    fn remaining(&self) -> usize {\n        self.input.len() - self.start\n    }\n}\n\nimpl Iterator for Split {\n    type Item = Output;\n"),
     # ---- R-BUILDER-BAL
     ("builder-string-finish-conditional", "C05", "R-BUILDER-BAL", "compile_string", "crates/bytecode/src/compiler.rs",
      "                        if let Some(result_register) = result.register {\n                            self.push_op(Op::StringFinish, &[result_register]);\n                        }",
